@@ -1111,6 +1111,11 @@ impl CanonicalizeContext {
 					}
 				}
 
+				// could have deleted all the children (e.g., they were all mphantoms) -- same as an mrow that was empty to start with
+				if element_name == "mrow" && children.is_empty() && mathml.attribute(INTENT_ATTR).is_none() {
+					return if parent_requires_child {Some(mathml)} else {None};
+				}
+
 				// could have deleted children so only one child remains -- need to lift it
 				if element_name == "mrow" && children.len() == 1 && CanonicalizeContext::is_ok_to_merge_mrow_child(mathml) {
 					// "lift" the child up so all the links (e.g., siblings) are correct
